@@ -15,11 +15,24 @@
 //!   die-outside <i>    (alias of kill)
 //!   restart-outside <i> (the process of service i dies and comes back under a NEW pid without the manager: service
 //!                       manager auto-restart / crash + restart; no-op if the service has no process)
-//!   refresh-full       (`refresh_node_registry(.., full_refresh = true)` as `antctl status` calls it; it builds a real
-//!                       RpcClient itself and no node RPC endpoint is served here, so it fails with RpcConnectionError
-//!                       at the first service whose process is alive, after the client's 1 s retry delay)
+//!   refresh-full [fail=<0|1>] [faults=<bits|->]
+//!                      (`status_report(.., output_json, fail, ..)` = `refresh_node_registry(.., full_refresh = true)` as
+//!                       `antctl status` calls it. The function builds a real `RpcClient` per service; the harness serves
+//!                       a node RPC endpoint (tonic, loopback) on the RPC port of every service definition that was ever
+//!                       started, answering from the simulated process table, so the SUCCESS path is exercised: pid, peer
+//!                       id, connected peers, listener port. Every RPC call consumes one fault bit at the endpoint.
+//!                       The caller (cmd::node::status) saves the registry after Ok only.)
+//!   drestart <i> retain=<0|1> faults=<bits|->
+//!                      (the daemon's `rpc::restart_node_service(registry, peer id recorded for entry i, retain)`; the
+//!                       harness plays antctld's restart_handler: it saves the registry whatever the outcome. The real
+//!                       function builds `ServiceController {}` itself: the cfg-guarded hook `ant_node_manager::verif`
+//!                       routes that to the simulated OS. The daemon loads the registry from the file per request: the
+//!                       generator emits `reload` in front.)
 //!   flaky <i> <0|1>    (while set, the OS "starts" service i successfully but no process appears)
-//! The fake node RPC answers `network_info` deterministically from the pid: (pid+2)%3 = 0 -> no connected peers,
+//! The node RPC (fake `RpcActions` for the ServiceManager ops, tonic endpoint for refresh-full / drestart) is answered by
+//! the oldest live process whose definition carries the RPC port (the first to bind wins); `node_info` reports that
+//! process's pid and the peer id of its service (a function of the service number: the key lives in the data dir).
+//! It answers `network_info` deterministically from the pid: (pid+2)%3 = 0 -> no connected peers,
 //! 1 -> one peer, 2 -> forty peers; pid%7 = 3 -> no listeners (then node_port is not updated). The dump shows the
 //! recorded peer count as `cp=<n|->`.
 //!   saveload           (registry := load(save(registry)))
@@ -29,7 +42,7 @@
 //! the outcome, a bare `refresh` does not save. `add_node` itself saves after every completed install.
 //! Output: `<result> calls=<k> | R <svc>* | F <svc>* | OS inst=[..] procs=[..] dirs=[..] np=<next pid> npt=<next port>`
 //!   (R = in-memory registry, F = the registry file as left on disk, loaded without any harness save in between)
-//!   svc = `<name#>/<number>/<dir#>:<A|R|S|X>:pid=<p|->:np=<p|->:mp=<p|->:rp=<p>:v=<ver>:cp=<n|->`
+//!   svc = `<name#>/<number>/<dir#>:<A|R|S|X>:pid=<p|->:np=<p|->:mp=<p|->:rp=<p>:v=<ver>:cp=<n|->:pe=<svc# of the recorded peer id|->:la=<udp port of listen_addr|->`
 //!
 //! Simulated OS semantics (Linux/systemd-like; trusted base): `install` (over)writes a service definition;
 //! `start` needs a definition, is a no-op if the service's process is alive, else spawns a process with a fresh pid
@@ -43,7 +56,7 @@ use ant_evm::{EvmNetwork, RewardsAddress};
 use ant_node_manager::add_services::config::{AddNodeServiceOptions, PortRange};
 use ant_node_manager::add_services::add_node;
 use ant_node_manager::error::Error as MgrError;
-use ant_node_manager::{refresh_node_registry, ServiceManager, VerbosityLevel};
+use ant_node_manager::{refresh_node_registry, status_report, ServiceManager, VerbosityLevel};
 use ant_service_management::control::ServiceControl;
 use ant_service_management::error::Error as SvcError;
 use ant_service_management::rpc::{NetworkInfo, NodeInfo, RecordAddress, RpcActions};
@@ -54,7 +67,16 @@ use async_trait::async_trait;
 use common::{Out, Rng};
 use libp2p::{Multiaddr, PeerId};
 use service_manager::ServiceInstallCtx;
+use ant_protocol::antnode_proto::{
+    ant_node_server::{AntNode, AntNodeServer},
+    KBucketsRequest, KBucketsResponse, NetworkInfoRequest, NetworkInfoResponse, NodeEvent, NodeEventsRequest,
+    NodeInfoRequest, NodeInfoResponse, RecordAddressesRequest, RecordAddressesResponse, RestartRequest,
+    RestartResponse, StopRequest, StopResponse, UpdateLogLevelRequest, UpdateLogLevelResponse, UpdateRequest,
+    UpdateResponse,
+};
 use std::collections::{BTreeMap, BTreeSet, VecDeque};
+use std::net::Ipv4Addr;
+use std::sync::OnceLock;
 use std::panic::{catch_unwind, AssertUnwindSafe};
 use std::path::{Path, PathBuf};
 use std::sync::{Arc, Mutex};
@@ -69,11 +91,14 @@ struct Proc {
     name: String,
     exe: PathBuf,
     port: u16,
+    /// the RPC port of the service definition the process was launched from
+    rpc: u16,
 }
 #[derive(Clone, Debug)]
 struct Installed {
     program: PathBuf,
     port: Option<u16>,
+    rpc: u16,
 }
 #[derive(Default)]
 struct SimOs {
@@ -82,17 +107,22 @@ struct SimOs {
     next_pid: u32,
     next_port: u16,
     flaky: BTreeSet<String>,
-    faults: VecDeque<bool>,
+    /// 0 = the call works, 1 = it fails without effect, 2 = it has its effect and then reports failure
+    faults: VecDeque<u8>,
     calls: usize,
 }
 impl SimOs {
     fn new() -> Self {
         SimOs { next_pid: 100, next_port: 30000, ..Default::default() }
     }
-    /// every fallible call consumes one oracle bit first
-    fn fault(&mut self) -> bool {
+    /// every fallible call consumes one oracle entry first
+    fn fault(&mut self) -> u8 {
         self.calls += 1;
-        self.faults.pop_front().unwrap_or(false)
+        self.faults.pop_front().unwrap_or(0)
+    }
+    /// who answers on an RPC port: the oldest live process launched with it (the first to bind wins)
+    fn rpc_owner(&self, rpc: u16) -> Option<Proc> {
+        self.procs.iter().filter(|p| p.rpc == rpc).min_by_key(|p| p.pid).cloned()
     }
 }
 fn io_fault() -> SvcError {
@@ -107,28 +137,42 @@ struct Ctl(Arc<Mutex<SimOs>>);
 impl ServiceControl for Ctl {
     fn create_service_user(&self, _username: &str) -> Result<(), SvcError> {
         let mut os = self.0.lock().unwrap();
-        if os.fault() {
+        if os.fault() != 0 {
             return Err(SvcError::ServiceUserAccountCreationFailed);
         }
         Ok(())
     }
     fn get_available_port(&self) -> Result<u16, SvcError> {
         let mut os = self.0.lock().unwrap();
-        if os.fault() {
+        let f = os.fault();
+        if f == 1 {
             return Err(io_fault());
         }
         let p = os.next_port;
         os.next_port += 1;
+        if f == 2 {
+            return Err(io_fault());
+        }
         Ok(p)
     }
     fn install(&self, ctx: ServiceInstallCtx, _user_mode: bool) -> Result<(), SvcError> {
         let mut os = self.0.lock().unwrap();
-        if os.fault() {
+        let f = os.fault();
+        if f == 1 {
             return Err(io_fault());
         }
         let args: Vec<String> = ctx.args.iter().map(|a| a.to_string_lossy().to_string()).collect();
         let port = args.iter().position(|a| a == "--port").and_then(|i| args.get(i + 1)).and_then(|p| p.parse().ok());
-        os.installed.insert(ctx.label.to_string(), Installed { program: ctx.program.clone(), port });
+        let rpc = args
+            .iter()
+            .position(|a| a == "--rpc")
+            .and_then(|i| args.get(i + 1))
+            .and_then(|p| p.parse::<std::net::SocketAddr>().ok())
+            .map_or(0, |a| a.port());
+        os.installed.insert(ctx.label.to_string(), Installed { program: ctx.program.clone(), port, rpc });
+        if f == 2 {
+            return Err(io_fault());
+        }
         Ok(())
     }
     fn get_process_pid(&self, path: &Path) -> Result<u32, SvcError> {
@@ -140,63 +184,104 @@ impl ServiceControl for Ctl {
     }
     fn start(&self, name: &str, _user_mode: bool) -> Result<(), SvcError> {
         let mut os = self.0.lock().unwrap();
-        if os.fault() {
+        let f = os.fault();
+        if f == 1 {
             return Err(io_fault());
         }
+        let after = |f: u8| if f == 2 { Err(io_fault()) } else { Ok(()) };
         let Some(inst) = os.installed.get(name).cloned() else { return Err(io_missing()) };
         if os.procs.iter().any(|p| p.name == name) || os.flaky.contains(name) {
-            return Ok(());
+            return after(f);
         }
         let pid = os.next_pid;
         os.next_pid += 1;
         let port = inst.port.unwrap_or(40000 + pid as u16);
-        os.procs.push(Proc { pid, name: name.to_string(), exe: inst.program, port });
-        Ok(())
+        os.procs.push(Proc { pid, name: name.to_string(), exe: inst.program, port, rpc: inst.rpc });
+        drop(os);
+        ensure_endpoint(inst.rpc);
+        after(f)
     }
     fn stop(&self, name: &str, _user_mode: bool) -> Result<(), SvcError> {
         let mut os = self.0.lock().unwrap();
-        if os.fault() {
+        let f = os.fault();
+        if f == 1 {
             return Err(io_fault());
         }
         if !os.installed.contains_key(name) {
             return Err(io_missing());
         }
         os.procs.retain(|p| p.name != name);
+        if f == 2 {
+            return Err(io_fault());
+        }
         Ok(())
     }
     fn uninstall(&self, name: &str, _user_mode: bool) -> Result<(), SvcError> {
         let mut os = self.0.lock().unwrap();
-        if os.fault() {
+        let f = os.fault();
+        if f == 1 {
             return Err(io_fault());
         }
         if os.installed.remove(name).is_none() {
             return Err(SvcError::ServiceRemovedManually(name.to_string()));
+        }
+        if f == 2 {
+            return Err(io_fault());
         }
         Ok(())
     }
     fn wait(&self, _delay: u64) {}
 }
 
+/// what the node process `p` reports over RPC (same for the fake `RpcActions` and the tonic endpoint)
+fn n_peers_of(pid: u32) -> usize {
+    match (pid + 2) % 3 { 0 => 0, 1 => 1, _ => 40 }
+}
+fn listeners_of(p: &Proc) -> Vec<Multiaddr> {
+    if p.pid % 7 == 3 {
+        vec![]
+    } else {
+        vec![format!("/ip4/127.0.0.1/udp/{}/quic-v1", p.port).parse().expect("multiaddr")]
+    }
+}
+/// peer id of a service: a function of the service number (the node's key lives in its data directory)
+static PEERS: Mutex<Vec<(u64, PeerId)>> = Mutex::new(Vec::new());
+fn peer_of_num(num: u64) -> PeerId {
+    let mut m = PEERS.lock().unwrap();
+    if let Some((_, p)) = m.iter().find(|(n, _)| *n == num) {
+        return *p;
+    }
+    let p = PeerId::random();
+    m.push((num, p));
+    p
+}
+fn peer_of(p: &Proc) -> PeerId {
+    peer_of_num(num_suffix(&p.name).parse::<u64>().unwrap_or(u64::MAX))
+}
+fn num_of_peer(id: &PeerId) -> Option<u64> {
+    PEERS.lock().unwrap().iter().find(|(_, p)| p == id).map(|(n, _)| *n)
+}
+
 struct Rpc {
     os: Arc<Mutex<SimOs>>,
-    name: String,
+    rpc: u16,
 }
 impl Rpc {
     fn alive(&self, os: &SimOs) -> Option<Proc> {
-        os.procs.iter().find(|p| p.name == self.name).cloned()
+        os.rpc_owner(self.rpc)
     }
 }
 #[async_trait]
 impl RpcActions for Rpc {
     async fn node_info(&self) -> Result<NodeInfo, SvcError> {
         let mut os = self.os.lock().unwrap();
-        if os.fault() {
+        if os.fault() != 0 {
             return Err(SvcError::RpcNodeInfoError("injected fault".into()));
         }
         let Some(p) = self.alive(&os) else { return Err(SvcError::RpcConnectionError("down".into())) };
         Ok(NodeInfo {
             pid: p.pid,
-            peer_id: PeerId::random(),
+            peer_id: peer_of(&p),
             log_path: PathBuf::from("/log"),
             data_path: PathBuf::from("/data"),
             version: "0.0.0".into(),
@@ -206,14 +291,12 @@ impl RpcActions for Rpc {
     }
     async fn network_info(&self) -> Result<NetworkInfo, SvcError> {
         let mut os = self.os.lock().unwrap();
-        if os.fault() {
-            return Err(SvcError::RpcNetworkInfoError("injected fault".into()));
+        if os.fault() != 0 {
+            // the real `RpcClient::network_info` maps a failed call to `RpcNodeInfoError`
+            return Err(SvcError::RpcNodeInfoError("injected fault".into()));
         }
         let Some(p) = self.alive(&os) else { return Err(SvcError::RpcConnectionError("down".into())) };
-        let addr: Multiaddr = format!("/ip4/127.0.0.1/udp/{}/quic-v1", p.port).parse().expect("multiaddr");
-        let n_peers = match (p.pid + 2) % 3 { 0 => 0, 1 => 1, _ => 40 };
-        let listeners = if p.pid % 7 == 3 { vec![] } else { vec![addr] };
-        Ok(NetworkInfo { connected_peers: (0..n_peers).map(|_| PeerId::random()).collect(), listeners })
+        Ok(NetworkInfo { connected_peers: (0..n_peers_of(p.pid)).map(|_| PeerId::random()).collect(), listeners: listeners_of(&p) })
     }
     async fn record_addresses(&self) -> Result<Vec<RecordAddress>, SvcError> {
         Ok(vec![])
@@ -229,7 +312,7 @@ impl RpcActions for Rpc {
     }
     async fn is_node_connected_to_network(&self, _t: Duration) -> Result<(), SvcError> {
         let mut os = self.os.lock().unwrap();
-        if os.fault() {
+        if os.fault() != 0 {
             return Err(SvcError::RpcConnectionError("injected fault".into()));
         }
         if self.alive(&os).is_none() {
@@ -239,6 +322,115 @@ impl RpcActions for Rpc {
     }
     async fn update_log_level(&self, _l: String) -> Result<(), SvcError> {
         Ok(())
+    }
+}
+
+// ---------------------------------------------------------------------------------------------
+// node RPC endpoints: `refresh_node_registry(full)` and `restart_node_service` build a real `RpcClient` from the
+// recorded `rpc_socket_addr`. One tonic server per RPC port (bound once, kept for the life of the harness process,
+// on a loopback address private to this process so that concurrent harness runs cannot collide) answers from the
+// process table of the current world; it fails when the fault oracle says so or when no live process owns the port.
+// ---------------------------------------------------------------------------------------------
+static CUR_OS: Mutex<Option<Arc<Mutex<SimOs>>>> = Mutex::new(None);
+static SERVED: Mutex<BTreeSet<u16>> = Mutex::new(BTreeSet::new());
+thread_local! {
+    /// the one current-thread runtime of the harness: the code under test, its RpcClient and the endpoints all run on it
+    /// (the endpoints make progress exactly while a `block_on` of the code under test awaits them)
+    static RT: std::rc::Rc<tokio::runtime::Runtime> =
+        std::rc::Rc::new(tokio::runtime::Builder::new_current_thread().enable_all().build().expect("rt"));
+}
+
+/// 127.x.y.z derived from the harness pid (all of 127/8 is loopback)
+fn loop_ip() -> Ipv4Addr {
+    let p = std::process::id();
+    Ipv4Addr::new(127, 1 + ((p >> 16) & 0x3f) as u8, (p >> 8) as u8, p as u8)
+}
+
+fn ensure_endpoint(port: u16) {
+    if port == 0 || !SERVED.lock().unwrap().insert(port) {
+        return;
+    }
+    let listener = match std::net::TcpListener::bind((loop_ip(), port)) {
+        Ok(l) => l,
+        Err(e) => {
+            eprintln!("harness infrastructure failure: cannot bind the node RPC endpoint {}:{port}: {e}", loop_ip());
+            std::process::exit(3);
+        }
+    };
+    listener.set_nonblocking(true).expect("nonblocking");
+    let rt = RT.with(|rt| rt.clone());
+    rt.spawn(async move {
+        let l = tokio::net::TcpListener::from_std(listener).expect("tokio listener");
+        use tokio_stream::StreamExt;
+        let incoming = tokio_stream::wrappers::TcpListenerStream::new(l).map(|c| {
+            c.map(|stream| {
+                let _ = stream.set_nodelay(true);
+                stream
+            })
+        });
+        let _ = tonic::transport::Server::builder()
+            .add_service(AntNodeServer::new(Endpoint { port }))
+            .serve_with_incoming(incoming)
+            .await;
+    });
+}
+
+struct Endpoint {
+    port: u16,
+}
+impl Endpoint {
+    /// one RPC call arriving at this port: fault bit first, then the owner of the port (if any is alive)
+    fn owner(&self) -> Result<Proc, tonic::Status> {
+        let cur = CUR_OS.lock().unwrap().clone().ok_or_else(|| tonic::Status::unavailable("no world"))?;
+        let mut os = cur.lock().unwrap();
+        if os.fault() != 0 {
+            return Err(tonic::Status::internal("injected fault"));
+        }
+        os.rpc_owner(self.port).ok_or_else(|| tonic::Status::unavailable("no live process owns this port"))
+    }
+}
+#[tonic::async_trait]
+impl AntNode for Endpoint {
+    type NodeEventsStream = tokio_stream::wrappers::ReceiverStream<Result<NodeEvent, tonic::Status>>;
+    async fn node_info(&self, _r: tonic::Request<NodeInfoRequest>) -> Result<tonic::Response<NodeInfoResponse>, tonic::Status> {
+        let p = self.owner()?;
+        Ok(tonic::Response::new(NodeInfoResponse {
+            peer_id: peer_of(&p).to_bytes(),
+            pid: p.pid,
+            log_dir: "/log".into(),
+            bin_version: "0.0.0".into(),
+            uptime_secs: 1,
+            data_dir: "/data".into(),
+            wallet_balance: 0,
+        }))
+    }
+    async fn network_info(&self, _r: tonic::Request<NetworkInfoRequest>) -> Result<tonic::Response<NetworkInfoResponse>, tonic::Status> {
+        let p = self.owner()?;
+        Ok(tonic::Response::new(NetworkInfoResponse {
+            connected_peers: (0..n_peers_of(p.pid)).map(|_| PeerId::random().to_bytes()).collect(),
+            listeners: listeners_of(&p).iter().map(|a| a.to_string()).collect(),
+        }))
+    }
+    async fn node_events(&self, _r: tonic::Request<NodeEventsRequest>) -> Result<tonic::Response<Self::NodeEventsStream>, tonic::Status> {
+        Err(tonic::Status::unimplemented("node_events"))
+    }
+    async fn record_addresses(&self, _r: tonic::Request<RecordAddressesRequest>) -> Result<tonic::Response<RecordAddressesResponse>, tonic::Status> {
+        Ok(tonic::Response::new(RecordAddressesResponse { addresses: vec![] }))
+    }
+    async fn k_buckets(&self, _r: tonic::Request<KBucketsRequest>) -> Result<tonic::Response<KBucketsResponse>, tonic::Status> {
+        Ok(tonic::Response::new(KBucketsResponse { kbuckets: Default::default() }))
+    }
+    async fn stop(&self, _r: tonic::Request<StopRequest>) -> Result<tonic::Response<StopResponse>, tonic::Status> {
+        Err(tonic::Status::unimplemented("stop"))
+    }
+    async fn restart(&self, _r: tonic::Request<RestartRequest>) -> Result<tonic::Response<RestartResponse>, tonic::Status> {
+        Err(tonic::Status::unimplemented("restart"))
+    }
+    async fn update(&self, _r: tonic::Request<UpdateRequest>) -> Result<tonic::Response<UpdateResponse>, tonic::Status> {
+        Err(tonic::Status::unimplemented("update"))
+    }
+    async fn update_log_level(&self, _r: tonic::Request<UpdateLogLevelRequest>) -> Result<tonic::Response<UpdateLogLevelResponse>, tonic::Status> {
+        Err(tonic::Status::unimplemented("update_log_level"))
     }
 }
 
@@ -254,6 +446,9 @@ struct World {
     /// an outside event (kill / restart-outside) happened and the file has not been saved from a refreshed registry
     /// since: a `reload` brings the stale records back
     file_stale: bool,
+    /// an `install` may have written a service definition and then reported failure (fault kind 2 in an add / daemon
+    /// restart): the code under test cannot know about that definition (clause installed-recorded-in-file is off)
+    unrecorded_install: bool,
 }
 impl World {
     fn new(rt: std::rc::Rc<tokio::runtime::Runtime>) -> World {
@@ -268,6 +463,7 @@ impl World {
             rt,
             killed: false,
             file_stale: false,
+            unrecorded_install: false,
         }
     }
     fn data_base(&self) -> PathBuf {
@@ -276,6 +472,25 @@ impl World {
     fn log_base(&self) -> PathBuf {
         self.tmp.path().join("log")
     }
+}
+
+/// name of the user the harness runs as (from /etc/passwd by the uid of our temp dir; `USER` is overridden below)
+fn current_user() -> String {
+    static NAME: OnceLock<String> = OnceLock::new();
+    NAME.get_or_init(|| {
+        use std::os::unix::fs::MetadataExt;
+        let uid = std::fs::metadata(std::env::temp_dir().join("verif-hmgr-home")).map(|m| m.uid()).unwrap_or(0);
+        std::fs::read_to_string("/etc/passwd")
+            .ok()
+            .and_then(|t| {
+                t.lines().find_map(|l| {
+                    let f: Vec<&str> = l.split(':').collect();
+                    (f.len() > 2 && f[2].parse::<u32>().ok() == Some(uid)).then(|| f[0].to_string())
+                })
+            })
+            .unwrap_or_else(|| "root".to_string())
+    })
+    .clone()
 }
 
 fn num_suffix(s: &str) -> String {
@@ -304,7 +519,7 @@ fn dump_nodes(nodes: &[ant_service_management::NodeServiceData]) -> String {
         };
         let dir = n.data_dir_path.file_name().map(|f| f.to_string_lossy().to_string()).unwrap_or_default();
         s.push_str(&format!(
-            " {}/{}/{}:{}:pid={}:np={}:mp={}:rp={}:v={}:cp={}",
+            " {}/{}/{}:{}:pid={}:np={}:mp={}:rp={}:v={}:cp={}:pe={}:la={}",
             num_suffix(&n.service_name),
             n.number,
             num_suffix(&dir),
@@ -314,7 +529,13 @@ fn dump_nodes(nodes: &[ant_service_management::NodeServiceData]) -> String {
             opt(n.metrics_port),
             n.rpc_socket_addr.port(),
             ver_of(&n.version),
-            opt(n.connected_peers.as_ref().map(|p| p.len()))
+            opt(n.connected_peers.as_ref().map(|p| p.len())),
+            n.peer_id.map_or("-".to_string(), |p| num_of_peer(&p).map_or("?".to_string(), |k| k.to_string())),
+            // what `NodeServiceData::get_antnode_port` reads: the first UDP port of `listen_addr`
+            opt(n.listen_addr.as_ref().and_then(|l| l.iter().find_map(|a| a.iter().find_map(|pr| match pr {
+                libp2p::multiaddr::Protocol::Udp(p) => Some(p),
+                _ => None,
+            }))))
         ));
     }
     s
@@ -371,12 +592,12 @@ fn dump(w: &World, file: &Result<NodeRegistry, String>) -> String {
 fn kv<'a>(ws: &'a [&'a str], key: &str) -> Option<&'a str> {
     ws.iter().find_map(|w| w.strip_prefix(key).and_then(|r| r.strip_prefix('=')))
 }
-fn parse_faults(ws: &[&str]) -> Option<VecDeque<bool>> {
+fn parse_faults(ws: &[&str]) -> Option<VecDeque<u8>> {
     let f = kv(ws, "faults")?;
     if f == "-" {
         return Some(VecDeque::new());
     }
-    f.chars().map(|c| match c { '0' => Some(false), '1' => Some(true), _ => None }).collect()
+    f.chars().map(|c| match c { '0' => Some(0), '1' => Some(1), '2' => Some(2), _ => None }).collect()
 }
 fn parse_range(s: &str) -> Option<Option<PortRange>> {
     if s == "-" {
@@ -420,6 +641,8 @@ fn res_unit(r: Result<(), MgrError>) -> String {
 /// Execute one op line on the real code. Returns the result class.
 fn exec_op(w: &mut World, ws: &[&str]) -> String {
     let ctl = Ctl(w.os.clone());
+    // the RPC endpoints answer from this world's process table
+    *CUR_OS.lock().unwrap() = Some(w.os.clone());
     match ws {
         ["add", rest @ ..] => {
             let (Some(count), Some(np), Some(mp), Some(rp), Some(metrics), Some(ver)) = (
@@ -453,12 +676,13 @@ fn exec_op(w: &mut World, ws: &[&str]) -> String {
                 owner: None,
                 peers_args: PeersArgs::default(),
                 rewards_address: RewardsAddress::default(),
-                rpc_address: None,
+                rpc_address: Some(loop_ip()),
                 rpc_port: rp,
                 service_data_dir_path: w.data_base(),
                 service_log_dir_path: w.log_base(),
                 upnp: false,
-                user: None,
+                // the daemon's restart path needs a service user (create_owned_dir chowns to it): the user we run as
+                user: Some(current_user()),
                 user_mode: false,
                 version: format!("0.1.{ver}"),
             };
@@ -492,8 +716,7 @@ fn exec_op(w: &mut World, ws: &[&str]) -> String {
             if i >= w.reg.nodes.len() {
                 return "err:no-such-service".into();
             }
-            let name = w.reg.nodes[i].service_name.clone();
-            let rpc = Rpc { os: w.os.clone(), name };
+            let rpc = Rpc { os: w.os.clone(), rpc: w.reg.nodes[i].rpc_socket_addr.port() };
             let ct = kv(rest, "ct").and_then(b01).unwrap_or(false);
             let rt = w.rt.clone();
             let tmp_path = w.tmp.path().to_path_buf();
@@ -582,20 +805,70 @@ fn exec_op(w: &mut World, ws: &[&str]) -> String {
                 let pid = os.next_pid;
                 os.next_pid += 1;
                 let port = os.installed.get(&name).and_then(|i| i.port).unwrap_or(40000 + pid as u16);
-                os.procs.push(Proc { pid, name: name.clone(), exe: old.exe, port });
+                let rpc = os.installed.get(&name).map_or(old.rpc, |i| i.rpc);
+                os.procs.push(Proc { pid, name: name.clone(), exe: old.exe, port, rpc });
                 drop(os);
                 w.killed = true;
                 w.file_stale = true;
             }
             "ok".into()
         }
-        ["refresh-full"] => match w.rt.block_on(refresh_node_registry(&mut w.reg, &ctl, false, true, false)) {
-            Ok(()) => {
-                w.killed = false;
-                "ok".into()
+        ["refresh-full", rest @ ..] => {
+            let fail = kv(rest, "fail").and_then(b01).unwrap_or(false);
+            // `antctl status --json [--fail]`: status_report = full refresh (real RpcClient per service -> the endpoints
+            // above) + the summary; cmd::node::status saves the registry after Ok only
+            match w.rt.block_on(status_report(&mut w.reg, &ctl, false, true, fail, false)) {
+                Ok(()) => {
+                    w.killed = false;
+                    if let Err(e) = w.reg.save() {
+                        return format!("err:save:{}", svc_err(&e));
+                    }
+                    "ok".into()
+                }
+                Err(MgrError::ServiceNotRunning(_)) => {
+                    // the refresh itself went through: every live process is recorded again
+                    w.killed = false;
+                    "err:ServiceNotRunning".into()
+                }
+                Err(e) => format!("err:{}", mgr_err(&e)),
             }
-            Err(e) => format!("err:{}", mgr_err(&e)),
-        },
+        }
+        ["drestart", i, rest @ ..] => {
+            let (Ok(i), Some(retain)) = (i.parse::<usize>(), kv(rest, "retain").and_then(b01)) else { return "bad-op".into() };
+            if i >= w.reg.nodes.len() {
+                return "err:no-such-service".into();
+            }
+            // the daemon is asked by peer id; an entry that never recorded one cannot be addressed
+            let peer = w.reg.nodes[i].peer_id.unwrap_or_else(PeerId::random);
+            ant_node_manager::verif::set_service_control(Arc::new(ctl.clone()));
+            let r = w.rt.block_on(ant_node_manager::rpc::restart_node_service(&mut w.reg, peer, retain));
+            ant_node_manager::verif::clear_service_control();
+            // antctld's restart_handler: "make sure to save the state even if the above fn fails"
+            if let Err(e) = w.reg.save() {
+                return format!("err:save:{}", svc_err(&e));
+            }
+            match r {
+                Ok(()) => "ok".into(),
+                Err(e) => {
+                    if let Some(m) = e.downcast_ref::<MgrError>() {
+                        format!("err:{}", mgr_err(m))
+                    } else {
+                        let m = format!("{e}");
+                        if m.contains("Could not find the provided PeerId") {
+                            "err:peer-not-found".into()
+                        } else if m.contains("Error while uninstalling node") {
+                            "err:uninstall".into()
+                        } else if m.contains("Error while installing node") {
+                            "err:install".into()
+                        } else if m.contains("The user must be set") {
+                            "err:no-user".into()
+                        } else {
+                            format!("err:other:{}", m.replace(' ', "_"))
+                        }
+                    }
+                }
+            }
+        }
         ["kill", i] | ["die-outside", i] => {
             let Ok(i) = i.parse::<usize>() else { return "bad-op".into() };
             if i >= w.reg.nodes.len() {
@@ -653,6 +926,9 @@ struct Snap {
     log_dir: PathBuf,
     bin: PathBuf,
     ports: Vec<u16>,
+    rpc: u16,
+    peer: Option<PeerId>,
+    cp: Option<usize>,
 }
 fn snapshot(w: &World) -> (Vec<Snap>, Vec<Proc>) {
     let s = w
@@ -667,6 +943,9 @@ fn snapshot(w: &World) -> (Vec<Snap>, Vec<Proc>) {
             log_dir: n.log_dir_path.clone(),
             bin: n.antnode_path.clone(),
             ports: n.metrics_port.into_iter().chain(n.node_port).chain(std::iter::once(n.rpc_socket_addr.port())).collect(),
+            rpc: n.rpc_socket_addr.port(),
+            peer: n.peer_id,
+            cp: n.connected_peers.as_ref().map(|c| c.len()),
         })
         .collect();
     (s, w.os.lock().unwrap().procs.clone())
@@ -731,6 +1010,66 @@ fn oracle(w: &World, info: &OpInfo, history: &[String], out: &mut Out) {
             out.oracle_fail("running-has-process", &hist, &format!("{} recorded Running with pid {:?} but no such live process", x.name, x.pid));
         }
     }
+    // a refresh that went through records reality: every service with a live process is Running with the pid the OS
+    // reports (a full refresh: and the peer id / connected peers the owner of its RPC port reports), every other one
+    // is not Running and records no pid
+    let refreshed = match info.ws.first().copied() {
+        Some("refresh") => info.result == "ok",
+        Some("refresh-full") => info.result == "ok" || info.result == "err:ServiceNotRunning",
+        _ => false,
+    };
+    if refreshed {
+        let full = info.ws[0] == "refresh-full";
+        for x in s1.iter() {
+            match p1.iter().find(|p| p.exe == x.bin) {
+                Some(p) => {
+                    if x.status != ServiceStatus::Running || x.pid != Some(p.pid) {
+                        out.oracle_fail("refresh-records-reality", &hist, &format!("{} has the live process {} but is recorded {:?} with pid {:?} after the refresh", x.name, p.pid, x.status, x.pid));
+                    }
+                    if full {
+                        let owner = p1.iter().filter(|q| q.rpc == x.rpc).min_by_key(|q| q.pid);
+                        match owner {
+                            Some(o) => {
+                                if x.peer != Some(peer_of(o)) || x.cp != Some(n_peers_of(o.pid)) {
+                                    out.oracle_fail("refresh-records-reality", &hist, &format!("{}: the full refresh did not record the peer id / the {} connected peers its node RPC (answered by pid {}) reports (recorded cp={:?})", x.name, n_peers_of(o.pid), o.pid, x.cp));
+                                }
+                            }
+                            None => out.oracle_fail("refresh-records-reality", &hist, &format!("{}: the full refresh succeeded although nothing answers on its RPC port", x.name)),
+                        }
+                    }
+                }
+                None => {
+                    if x.status == ServiceStatus::Running || x.pid.is_some() {
+                        out.oracle_fail("refresh-records-reality", &hist, &format!("{} has no live process but is recorded {:?} with pid {:?} after the refresh", x.name, x.status, x.pid));
+                    }
+                }
+            }
+        }
+        out.count(if full { "oracle:full-refresh-judged" } else { "oracle:refresh-judged" });
+    }
+    // a successful daemon restart leaves the addressed service (retain) / its replacement (no retain) Running with a live
+    // process of the recorded pid, and the replaced service stopped without pid
+    if let ["drestart", i, rest @ ..] = info.ws {
+        if let (Ok(i), Some(retain)) = (i.parse::<usize>(), kv(rest, "retain").and_then(b01)) {
+            if !failed && i < s0.len() && s0[i].peer.is_some() {
+                let j = s0.iter().position(|x| x.peer == s0[i].peer).unwrap_or(i);
+                let running_live = |x: &Snap| x.status == ServiceStatus::Running && p1.iter().any(|p| p.exe == x.bin && Some(p.pid) == x.pid);
+                if retain {
+                    if s1.len() != s0.len() || !running_live(&s1[j]) {
+                        out.oracle_fail("restart-leaves-running", &hist, &format!("the restart of {} succeeded but it is recorded {:?} with pid {:?} (live processes: {:?})", s1[j].name, s1[j].status, s1[j].pid, p1.iter().map(|p| p.pid).collect::<Vec<_>>()));
+                    }
+                } else {
+                    if s1.len() != s0.len() + 1 || !running_live(&s1[s1.len() - 1]) {
+                        out.oracle_fail("restart-leaves-running", &hist, &format!("the restart of {} into a new service succeeded but the registry went from {} to {} entries / the new entry is not Running with a live process", s0[j].name, s0.len(), s1.len()));
+                    }
+                    if s1[j].status == ServiceStatus::Running || s1[j].pid.is_some() {
+                        out.oracle_fail("restart-leaves-running", &hist, &format!("the replaced service {} is still recorded {:?} with pid {:?}", s1[j].name, s1[j].status, s1[j].pid));
+                    }
+                }
+                out.count("oracle:restart-judged");
+            }
+        }
+    }
     // removed stays removed  /  successful stop or remove leaves no process and no pid.
     // Known finding K-s-orphan: evaluated only when the service had no unrecorded live process at entry.
     for (i, x) in s0.iter().enumerate() {
@@ -786,12 +1125,17 @@ fn oracle(w: &World, info: &OpInfo, history: &[String], out: &mut Out) {
     if touches_registry {
     // (same serialisation code as save/load — serde_json::to_string + NodeRegistry::from_json — without the disk; the
     //  disk path itself is observed through the registry file above all)
-    match serde_json::to_string(&side).map_err(ant_service_management::Error::from).and_then(|j| NodeRegistry::from_json(&j)) {
+    let text = serde_json::to_string(&side);
+    match text.as_ref().map_err(|e| format!("{e}")).and_then(|j| NodeRegistry::from_json(j).map_err(|e| format!("{e}"))) {
         Ok(back) => {
             let a = serde_json::to_value(&side).expect("json");
             let b = serde_json::to_value(&back).expect("json");
             if a != b {
                 out.oracle_fail("save-load-identity", &hist, "registry differs after save + load");
+            }
+            // ... and byte for byte: what was loaded saves to the same text again
+            if serde_json::to_string(&back).ok().as_ref() != text.as_ref().ok() {
+                out.oracle_fail("save-load-identity", &hist, "the loaded registry does not save to the same bytes again");
             }
         }
         Err(e) => out.oracle_fail("save-load-identity", &hist, &format!("save/load failed: {e}")),
@@ -831,8 +1175,8 @@ fn oracle(w: &World, info: &OpInfo, history: &[String], out: &mut Out) {
             let recorded_new = s1.len() > s0.len();
             let claims_saved = match info.ws.first().copied() {
                 Some("add") => !failed || recorded_new,
-                Some("start") | Some("stop") | Some("remove") => !failed,
-                Some("upgrade") => info.result != "err:no-such-service" && info.result != "bad-op",
+                Some("start") | Some("stop") | Some("remove") | Some("refresh-full") => !failed,
+                Some("upgrade") | Some("drestart") => info.result != "err:no-such-service" && info.result != "bad-op",
                 Some("saveload") | Some("reload") => !failed,
                 _ => false,
             };
@@ -846,7 +1190,7 @@ fn oracle(w: &World, info: &OpInfo, history: &[String], out: &mut Out) {
             }
             // (b) every service the OS has a definition for is recorded in the file, so the next invocation knows it
             let os = w.os.lock().unwrap();
-            for name in os.installed.keys() {
+            for name in os.installed.keys().filter(|_| !w.unrecorded_install) {
                 if !file.nodes.iter().any(|n| &n.service_name == name) {
                     out.oracle_fail("installed-recorded-in-file", &hist, &format!("{name} is installed but absent from the registry file"));
                 }
@@ -873,7 +1217,7 @@ struct Runner {
 }
 impl Runner {
     fn new() -> Self {
-        let rt = std::rc::Rc::new(tokio::runtime::Builder::new_current_thread().enable_all().build().expect("rt"));
+        let rt = RT.with(|rt| rt.clone());
         Runner { world: World::new(rt.clone()), history: vec![], rt }
     }
     /// returns (output line, fallible calls made)
@@ -885,7 +1229,12 @@ impl Runner {
             return ("ok".into(), 0);
         }
         self.history.push(line.to_string());
-        let faults = if matches!(ws.first(), Some(&"add" | &"start" | &"stop" | &"remove" | &"upgrade")) {
+        let faults = if matches!(ws.first(), Some(&"add" | &"start" | &"stop" | &"remove" | &"upgrade" | &"drestart")) {
+            match parse_faults(&ws) {
+                Some(f) => f,
+                None => return ("bad-op".into(), 0),
+            }
+        } else if ws.first() == Some(&"refresh-full") && kv(&ws, "faults").is_some() {
             match parse_faults(&ws) {
                 Some(f) => f,
                 None => return ("bad-op".into(), 0),
@@ -903,9 +1252,17 @@ impl Runner {
         let result = catch_unwind(AssertUnwindSafe(|| exec_op(w, &ws))).unwrap_or_else(|_| "panic".into());
         let calls = self.world.os.lock().unwrap().calls;
         let post = snapshot(&self.world);
+        // a call that had its effect and then reported failure: what the command did not get to save is now behind
+        // reality (the in-memory registry must still be consistent: that is judged)
+        if kv(&ws, "faults").map_or(false, |f| f.contains('2')) {
+            self.world.file_stale = true;
+            if matches!(ws.first().copied(), Some("add") | Some("drestart")) {
+                self.world.unrecorded_install = true;
+            }
+        }
         let saved_by_caller = match ws.first().copied() {
-            Some("add") | Some("start") | Some("stop") | Some("remove") | Some("saveload") => result.starts_with("ok"),
-            Some("upgrade") => result != "err:no-such-service" && result != "bad-op",
+            Some("add") | Some("start") | Some("stop") | Some("remove") | Some("saveload") | Some("refresh-full") => result.starts_with("ok"),
+            Some("upgrade") | Some("drestart") => result != "err:no-such-service" && result != "bad-op",
             _ => false,
         };
         if saved_by_caller && !self.world.killed {
@@ -929,19 +1286,26 @@ impl Runner {
 // ---------------------------------------------------------------------------------------------
 // generators
 // ---------------------------------------------------------------------------------------------
-fn with_faults(op: &str, bits: &[bool]) -> String {
+fn with_faults(op: &str, bits: &[u8]) -> String {
     let head = op.split(" faults=").next().unwrap_or(op);
-    if !["add", "start", "stop", "remove", "upgrade"].contains(&head.split(' ').next().unwrap_or("")) {
+    if !["add", "start", "stop", "remove", "upgrade", "drestart", "refresh-full"].contains(&head.split(' ').next().unwrap_or("")) {
         return op.to_string();
     }
-    let f: String = if bits.is_empty() { "-".into() } else { bits.iter().map(|b| if *b { '1' } else { '0' }).collect() };
+    let f: String = if bits.is_empty() { "-".into() } else { bits.iter().map(|b| (b'0' + *b) as char).collect() };
     format!("{head} faults={f}")
 }
 
 /// the op alphabet over services 0..nsvc (inputs without the faults field)
-fn alphabet(nsvc: usize, rich: bool) -> Vec<String> {
+/// `running`: the family starts from started services, so entries have recorded a peer id and the daemon's restart
+/// can address them. An entry `a|b` stands for the two lines `a`, `b` (the daemon loads the registry from the file).
+fn alphabet(nsvc: usize, rich: bool, running: bool) -> Vec<String> {
     let mut v = vec![];
     for i in 0..nsvc {
+        if running {
+            v.push(format!("drestart {i} retain=1"));
+            v.push(format!("drestart {i} retain=0"));
+            v.push(format!("reload|drestart {i} retain=1"));
+        }
         v.push(format!("start {i} ct=0"));
         v.push(format!("stop {i}"));
         v.push(format!("remove {i} keep=0"));
@@ -958,10 +1322,12 @@ fn alphabet(nsvc: usize, rich: bool) -> Vec<String> {
         }
     }
     v.push("refresh".into());
+    v.push("refresh-full fail=0".into());
     v.push("saveload".into());
     v.push("reload".into());
     v.push("add count=1 np=- mp=- rp=- metrics=0 ver=1".into());
     if rich {
+        v.push("refresh-full fail=1".into());
         v.push("add count=2 np=- mp=- rp=- metrics=1 ver=1".into());
         v.push("add count=2 np=8000-8001 mp=- rp=- metrics=0 ver=1".into());
         v.push("add count=1 np=8001 mp=- rp=8001 metrics=0 ver=1".into());
@@ -1004,7 +1370,13 @@ fn random_op(rng: &mut Rng, nsvc: usize) -> String {
         5..=7 => format!("stop {i}"),
         8..=9 => format!("remove {i} keep={}", rng.below(2)),
         10..=12 => format!("upgrade {i} force={} start={} ver={} ct={}", rng.below(2), rng.below(2), rng.below(3), rng.below(2)),
-        13..=14 => "refresh".into(),
+        13 => "refresh".into(),
+        14 => match rng.below(4) {
+            0 => format!("refresh-full fail={}", rng.below(2)),
+            1 => format!("drestart {i} retain={}", rng.below(2)),
+            2 => format!("reload|drestart {i} retain={}", rng.below(2)),
+            _ => "refresh".into(),
+        },
         15 => if rng.chance(1, 2) { format!("kill {i}") } else { format!("restart-outside {i}") },
         16 => format!("flaky {i} {}", rng.below(2)),
         17 => if rng.chance(1, 2) { "saveload".into() } else { "reload".into() },
@@ -1014,14 +1386,18 @@ fn random_op(rng: &mut Rng, nsvc: usize) -> String {
 
 /// Expand a base history (ops without faults) into the fault-free run plus all single-fault placements
 /// (and, if `pairs`, a seeded sample of two-fault placements). Call counts come from a dry run.
-fn expand(base: &[String], rng: &mut Rng, pairs: usize, out_lines: &mut Vec<String>, singles_cap: usize) {
+/// `after_effect`: 0 = fail-without-effect placements only, 1 = plus the fail-after-effect variant of a seeded half of
+/// the placements, 2 = of every placement.
+fn expand(base: &[String], rng: &mut Rng, pairs: usize, out_lines: &mut Vec<String>, singles_cap: usize, after_effect: u8) {
+    let base: Vec<String> = base.iter().flat_map(|e| e.split('|').map(String::from)).collect();
+    let base = &base;
     let mut r = Runner::new();
     let mut counts = vec![];
     for l in base {
         let (_, c) = r.run_line(&with_faults(l, &[]), None);
         counts.push(c);
     }
-    let emit = |faults: &BTreeMap<usize, Vec<bool>>, out_lines: &mut Vec<String>| {
+    let emit = |faults: &BTreeMap<usize, Vec<u8>>, out_lines: &mut Vec<String>| {
         out_lines.push("reset".into());
         for (k, l) in base.iter().enumerate() {
             out_lines.push(with_faults(l, faults.get(&k).map(|v| v.as_slice()).unwrap_or(&[])));
@@ -1032,14 +1408,15 @@ fn expand(base: &[String], rng: &mut Rng, pairs: usize, out_lines: &mut Vec<Stri
     let mut places: Vec<(usize, usize)> = vec![];
     for (k, c) in counts.iter().enumerate() {
         let head = base[k].split(' ').next().unwrap_or("");
-        if ["add", "start", "stop", "remove", "upgrade"].contains(&head) {
-            let extra = if head == "upgrade" || head == "add" { 2 } else { 0 };
+        if ["add", "start", "stop", "remove", "upgrade", "drestart", "refresh-full"].contains(&head) {
+            let extra = if head == "upgrade" || head == "add" || head == "drestart" { 2 } else { 0 };
             for j in 0..(*c + extra) {
                 places.push((k, j));
             }
         }
     }
-    let bits = |j: usize| -> Vec<bool> { (0..=j).map(|x| x == j).collect() };
+    // kind 1: the call fails without effect; kind 2: it has its effect and then reports failure
+    let bits = |j: usize, kind: u8| -> Vec<u8> { (0..=j).map(|x| if x == j { kind } else { 0 }).collect() };
     let mut singles = places.clone();
     if singles.len() > singles_cap {
         rng.shuffle(&mut singles);
@@ -1047,8 +1424,14 @@ fn expand(base: &[String], rng: &mut Rng, pairs: usize, out_lines: &mut Vec<Stri
     }
     for (k, j) in &singles {
         let mut m = BTreeMap::new();
-        m.insert(*k, bits(*j));
+        m.insert(*k, bits(*j, 1));
         emit(&m, out_lines);
+        // the fail-after-effect variant of the same placement (for an RPC query the two coincide: a seeded half)
+        if after_effect >= 2 || (after_effect == 1 && rng.chance(1, 2)) {
+            let mut m = BTreeMap::new();
+            m.insert(*k, bits(*j, 2));
+            emit(&m, out_lines);
+        }
     }
     for _ in 0..pairs {
         if places.len() < 2 {
@@ -1059,13 +1442,13 @@ fn expand(base: &[String], rng: &mut Rng, pairs: usize, out_lines: &mut Vec<Stri
         if a == b {
             continue;
         }
-        let mut m: BTreeMap<usize, Vec<bool>> = BTreeMap::new();
+        let mut m: BTreeMap<usize, Vec<u8>> = BTreeMap::new();
         for (k, j) in [a, b] {
             let e = m.entry(k).or_default();
             if e.len() <= j {
-                e.resize(j + 1, false);
+                e.resize(j + 1, 0);
             }
-            e[j] = true;
+            e[j] = if rng.chance(1, 2) { 1 } else { 2 };
         }
         emit(&m, out_lines);
     }
@@ -1088,8 +1471,28 @@ fn generate(seed: u64, n: u64) -> Vec<String> {
         // runs first must record the pid the OS reports
         vec!["reset", "add count=1 np=- mp=- rp=- metrics=0 ver=1 faults=-", "start 0 ct=0 faults=-", "restart-outside 0", "refresh", "stop 0 faults=-"],
         vec!["reset", "add count=2 np=- mp=- rp=- metrics=0 ver=1 faults=-", "start 1 ct=0 faults=-", "start 0 ct=0 faults=-", "restart-outside 1", "die-outside 0", "refresh", "reload", "refresh"],
-        // full refresh (as `antctl status` calls it): stops at the first live service because no node RPC is served
+        // full refresh (as `antctl status` calls it) through the real RpcClient and the served endpoints
         vec!["reset", "add count=2 np=- mp=- rp=- metrics=0 ver=1 faults=-", "start 1 ct=0 faults=-", "kill 1", "refresh-full", "start 1 ct=0 faults=-", "refresh-full"],
+        // ... re-records pid, peer id, peers and listener port of a process restarted behind the manager's back; a
+        // failing RPC leaves the entries before it refreshed and is not saved; --fail
+        vec!["reset", "add count=3 np=- mp=- rp=- metrics=0 ver=1 faults=-", "start 0 ct=0 faults=-", "start 1 ct=0 faults=-", "start 2 ct=0 faults=-", "restart-outside 0", "restart-outside 1", "die-outside 2", "refresh-full fail=0 faults=001", "reload", "refresh-full fail=0 faults=-", "refresh-full fail=1 faults=-", "reload"],
+        // ... and picks up a process the registry does not know about (K-s-orphan) as Running with its pid
+        vec!["reset", "add count=1 np=- mp=- rp=- metrics=0 ver=1 faults=-", "start 0 ct=0 faults=01", "refresh-full fail=1 faults=-", "stop 0 faults=-"],
+        // the daemon's restart (antctld loads the file, restarts, saves whatever the outcome)
+        vec!["reset", "add count=2 np=- mp=- rp=- metrics=0 ver=1 faults=-", "start 0 ct=0 faults=-", "start 1 ct=0 faults=-", "reload", "drestart 0 retain=1 faults=-", "reload", "drestart 1 retain=0 faults=-", "reload", "drestart 0 retain=1 faults=00001", "reload", "drestart 0 retain=1 faults=001"],
+        // the replacement service must not reuse a recorded name after a partially failed add (numbered from the
+        // registry length before the fix), and is recorded even when its first start fails
+        vec!["reset", "add count=2 np=- mp=- rp=- metrics=0 ver=1 faults=01", "start 0 ct=0 faults=-", "drestart 0 retain=0 faults=-", "drestart 1 retain=0 faults=001", "drestart 1 retain=0 faults=0001", "start 2 ct=0 faults=-"],
+        // the replacement shares the RPC address of the service it replaces: the older process answers for both
+        vec!["reset", "add count=1 np=- mp=- rp=- metrics=0 ver=1 faults=-", "start 0 ct=0 faults=-", "drestart 0 retain=0 faults=-", "start 0 ct=0 faults=-", "refresh-full fail=0 faults=-", "stop 1 faults=-", "refresh-full fail=0 faults=-", "drestart 0 retain=1 faults=-"],
+        // calls that have their effect and then report failure: stop (the process is gone: recorded as stopped since the
+        // fix, Running with a dead pid before), start (K-s-orphan), uninstall / install (remove, upgrade, add, daemon)
+        vec!["reset", "add count=1 np=- mp=- rp=- metrics=0 ver=1 faults=-", "start 0 ct=0 faults=-", "stop 0 faults=2", "reload", "refresh", "start 0 ct=0 faults=2", "stop 0 faults=-"],
+        vec!["reset", "add count=1 np=- mp=- rp=- metrics=0 ver=1 faults=-", "start 0 ct=0 faults=-", "upgrade 0 force=0 start=1 ver=2 ct=0 faults=2", "upgrade 0 force=0 start=1 ver=2 ct=0 faults=2", "upgrade 0 force=0 start=1 ver=2 ct=0 faults=02", "start 0 ct=0 faults=-", "upgrade 0 force=0 start=1 ver=3 ct=0 faults=002"],
+        vec!["reset", "add count=2 np=- mp=- rp=- metrics=1 ver=1 faults=002", "add count=2 np=- mp=- rp=- metrics=0 ver=1 faults=02", "remove 0 keep=0 faults=2", "remove 0 keep=0 faults=-", "add count=1 np=- mp=- rp=- metrics=0 ver=1 faults=2"],
+        vec!["reset", "add count=1 np=- mp=- rp=- metrics=0 ver=1 faults=-", "start 0 ct=0 faults=-", "reload", "drestart 0 retain=1 faults=2", "reload", "drestart 0 retain=1 faults=02", "drestart 0 retain=1 faults=002", "drestart 0 retain=0 faults=2", "drestart 0 retain=1 faults=0002", "refresh-full fail=0 faults=2"],
+        // a restart whose RPC query fails after the launch leaves an unrecorded live process (K-s-orphan via the daemon)
+        vec!["reset", "add count=1 np=8000 mp=- rp=- metrics=1 ver=1 faults=-", "start 0 ct=0 faults=-", "drestart 0 retain=1 faults=00001", "drestart 0 retain=1 faults=-", "remove 0 keep=0 faults=-", "drestart 0 retain=1 faults=-"],
         // zero / one / forty connected peers and an empty listener list (pids 100, 101, 102): saved and loaded back
         vec!["reset", "add count=3 np=- mp=- rp=- metrics=0 ver=1 faults=-", "start 0 ct=0 faults=-", "start 1 ct=0 faults=-", "start 2 ct=0 faults=-", "reload", "stop 0 faults=-", "saveload"],
         // K-s-orphan: RPC failure after the process launched
@@ -1109,7 +1512,7 @@ fn generate(seed: u64, n: u64) -> Vec<String> {
     let depth = if thorough { 3 } else { 2 };
     for nsvc in 1..=2usize {
         // (an outside restart needs a running process: it is part of the running-base family below)
-        let alpha: Vec<String> = alphabet(nsvc, false).into_iter().filter(|a| !a.starts_with("restart-outside")).collect();
+        let alpha: Vec<String> = alphabet(nsvc, false, false).into_iter().filter(|a| !a.starts_with("restart-outside")).collect();
         let prefix = format!("add count={nsvc} np=- mp=- rp=- metrics=0 ver=1");
         let mut seqs: Vec<Vec<String>> = vec![vec![]];
         for _ in 0..depth {
@@ -1126,15 +1529,16 @@ fn generate(seed: u64, n: u64) -> Vec<String> {
                 base.extend(s.iter().cloned());
                 // depth-3 exhaustive is large: single faults only on a seeded third of the sequences
                 if s.len() < 3 || rng.chance(1, 3) {
-                    expand(&base, &mut rng, 0, &mut lines, 64);
+                    expand(&base, &mut rng, 0, &mut lines, 64, if thorough || nsvc == 1 { 2 } else { 1 });
                 } else {
                     lines.push("reset".into());
-                    lines.extend(base.iter().map(|l| with_faults(l, &[])));
+                    lines.extend(base.iter().flat_map(|e| e.split('|')).map(|l| with_faults(l, &[])));
                 }
             }
             seqs = next;
         }
     }
+    if std::env::var("C19_GEN_STATS").is_ok() { eprintln!("gen: after added-base family {}", lines.len()); }
     // port clashes at every position of a requested range (first, middle, last), for each port kind, against each
     // kind of recorded port: a single clashing port anywhere in the range must refuse the whole add
     for rec_kind in ["np", "mp", "rp"] {
@@ -1158,10 +1562,11 @@ fn generate(seed: u64, n: u64) -> Vec<String> {
             }
         }
     }
+    if std::env::var("C19_GEN_STATS").is_ok() { eprintln!("gen: after port clashes {}", lines.len()); }
     // the same from a RUNNING base: prefix add + start of every service, then all op sequences up to depth 2 with all
     // single-fault placements (a stop/remove/upgrade of a running service whose process died needs start; kill; <op>)
     for nsvc in 1..=2usize {
-        let alpha = alphabet(nsvc, false);
+        let alpha = alphabet(nsvc, false, true);
         let mut prefix = vec![format!("add count={nsvc} np=- mp=- rp=- metrics=0 ver=1")];
         for i in 0..nsvc {
             prefix.push(format!("start {i} ct=0"));
@@ -1179,16 +1584,17 @@ fn generate(seed: u64, n: u64) -> Vec<String> {
             for s in &next {
                 let mut base = prefix.clone();
                 base.extend(s.iter().cloned());
-                if nsvc == 1 || s.len() < 2 || rng.chance(1, 3) {
-                    expand(&base, &mut rng, 0, &mut lines, 64);
+                if nsvc == 1 || s.len() < 2 || rng.chance(1, if thorough { 3 } else { 8 }) {
+                    expand(&base, &mut rng, 0, &mut lines, 64, if thorough || (nsvc == 1 && s.len() < 2) { 2 } else { 1 });
                 } else {
                     lines.push("reset".into());
-                    lines.extend(base.iter().map(|l| with_faults(l, &[])));
+                    lines.extend(base.iter().flat_map(|e| e.split('|')).map(|l| with_faults(l, &[])));
                 }
             }
             seqs = next;
         }
     }
+    if std::env::var("C19_GEN_STATS").is_ok() { eprintln!("gen: after running-base family {}", lines.len()); }
     // seeded sample: n base histories of 3 (quick) / up to 5 (thorough) ops after the add prefix, 1-3 services,
     // option combinations, all single-fault placements (capped) and a few two-fault placements
     for _ in 0..n {
@@ -1200,7 +1606,7 @@ fn generate(seed: u64, n: u64) -> Vec<String> {
         } else {
             base.push(random_add(&mut rng));
         }
-        let rich = alphabet(nsvc, true);
+        let rich = alphabet(nsvc, true, true);
         for _ in 0..len {
             if rng.chance(1, 2) {
                 base.push(rng.pick(&rich).clone());
@@ -1209,7 +1615,7 @@ fn generate(seed: u64, n: u64) -> Vec<String> {
             }
         }
         let pairs = if thorough { 6 } else { 1 };
-        expand(&base, &mut rng, pairs, &mut lines, if thorough { 40 } else { 6 });
+        expand(&base, &mut rng, pairs, &mut lines, if thorough { 40 } else { 6 }, if thorough { 2 } else { 1 });
     }
     lines
 }
